@@ -67,7 +67,7 @@ func (e *eventV1) JoinRule() (string, error) {
 		return "", fmt.Errorf("gomatrixserverlib: JoinRule() event is not a m.room.join_rules event, bad state key")
 	}
 	var content JoinRuleContent
-	if err := json.Unmarshal(e.eventFields.Content, &content); err != nil {
+	if err := unmarshalExact(e.eventFields.Content, &content); err != nil {
 		return "", err
 	}
 	return content.JoinRule, nil
@@ -78,7 +78,7 @@ func (e *eventV1) HistoryVisibility() (HistoryVisibility, error) {
 		return "", fmt.Errorf("gomatrixserverlib: HistoryVisibility() event is not a m.room.history_visibility event, bad state key")
 	}
 	var content HistoryVisibilityContent
-	if err := json.Unmarshal(e.eventFields.Content, &content); err != nil {
+	if err := unmarshalExact(e.eventFields.Content, &content); err != nil {
 		return "", err
 	}
 	return content.HistoryVisibility, nil
@@ -88,7 +88,7 @@ func (e *eventV1) Membership() (string, error) {
 	var content struct {
 		Membership string `json:"membership"`
 	}
-	if err := json.Unmarshal(e.eventFields.Content, &content); err != nil {
+	if err := unmarshalExact(e.eventFields.Content, &content); err != nil {
 		return "", err
 	}
 	if e.StateKey() == nil {
